@@ -1,7 +1,8 @@
 package smt
 
 /*
-#cgo LDFLAGS: -lz3
+#cgo CFLAGS: -I/opt/veriftools/pyvenv/lib/python3.11/site-packages/z3/include
+#cgo LDFLAGS: -L/opt/veriftools/pyvenv/lib/python3.11/site-packages/z3/lib -lz3 -Wl,-rpath,/opt/veriftools/pyvenv/lib/python3.11/site-packages/z3/lib
 #include <z3.h>
 #include <stdlib.h>
 
